@@ -49,6 +49,9 @@ def graph(k):
     td = "TdI64_%d" % k
     d[n("En")] = struct([field(1, "default", dict(T("enum"), gotype=td, ann=td)), field(2, "default", L(dict(T("enum"), gotype=td, ann=td)))])
     d[n("Ei")] = struct([field(1, "default", dict(T("i64"), gotype=td, ann="i64")), field(2, "default", L(dict(T("i64"), gotype=td, ann="i64")))])
+    # only fixed-size fields plus the holder (every size shortcut applies, the retained bytes still count), alone and as elements
+    d[n("FxH")] = struct([field(1, "default", T("i32")), field(2, "required", T("i64")), field(3, "default", T("double"))], unk=True)
+    d[n("FxHL")] = struct([field(1, "default", L(ST(n("FxH"), False))), field(2, "default", L(ST(n("FxH"), True))), field(3, "default", ST(n("FxH"), False))])
     # a cycle that reaches an unsupported member: X -> A -> {B, Bad}, B -> A, Y -> B
     bad = {"id": 2, "key": "2", "req": "default", "t": {"k": "i32", "ptr": False, "gotype": "uint32"}, "nocopy": False,
            "name": list(b"F2"), "rawtag": 'frugal:"2,default"', "opaque": True}
@@ -94,7 +97,7 @@ def run(prop, tier, seed, work):
     defs_path = vlib.write_defs(work, defs)
     # reference-encoded messages (and mutants) for copy 0's types; other copies get the same
     # bytes since their schemas are identical up to names
-    base = ["In", "Rq", "Rq2", "Hd", "Mp", "Top", "En", "Ei", "FxL", "FwL"]
+    base = ["In", "Rq", "Rq2", "Hd", "Mp", "Top", "En", "Ei", "FxL", "FwL", "FxH", "FxHL"]
     older = {"FxL": "FwL"}       # reader -> a writer with an older schema of it
     badtypes = ["BX", "BY", "BA", "BB", "Bd"]
     cases = []
@@ -102,7 +105,7 @@ def run(prop, tier, seed, work):
     for b in base:
         s = "%s_0" % b
         vs = list(U.struct_variants(s, defs, [0, 1, 2], [0, 1, 3]))
-        head = [x for x in vs if x[0] in ("base", "1=2", "1=3", "z1=2")]     # full-first and sparse-first containers of field 1
+        head = [x for x in vs if x[0] in ("base", "1=2", "1=3", "z1=2", "unk1", "zunk5")]   # full-first and sparse-first containers of field 1; holders of different lengths
         rest = [x for x in vs if x not in head]
         rng.shuffle(rest)
         vs = (head + rest)[:6]
@@ -167,6 +170,39 @@ def run(prop, tier, seed, work):
             steps.append({"op": "recheck", "obj": i, "after": "end"})
         sid = "C07-seq-%d" % k
         scen.append({"sid": sid, "prop": prop, "vals": svals, "steps": steps, "tags": [], "dkey": sid})
+    # systematic: the same type by value with different values in a row (the by-value argument travels through a per-type slot),
+    # ending with the zero value after a full one
+    for b in base:
+        ty = "%s_%d" % (b, ncopies - 2)
+        vv = [v for (_, v) in vals[b]][:4] + [U.zero_struct("%s_0" % b, defs)]
+        steps = []
+        for vi in list(range(len(vv))) + [0, len(vv) - 1]:
+            steps.append({"op": "size", "ty": ty, "v": vi, "byval": True})
+            steps.append({"op": "encode", "ty": ty, "v": vi, "byval": True, "buf": {"mode": "rel", "n": 0, "extra": 0}})
+        steps.append({"op": "encode", "ty": ty, "v": len(vv) - 1, "byval": False, "buf": {"mode": "rel", "n": 0, "extra": 0}})
+        sid = "C07-byval-%s" % b
+        scen.append({"sid": sid, "prop": prop, "vals": vv, "steps": steps, "tags": ["byval-sequence"], "dkey": sid})
+    # systematic: a rejected definition of every class, then the FIRST use of a fresh valid type (whatever the
+    # failed build left behind in the parser / resolver must not show in the next type's schema)
+    import checks_reject
+    if "Leaf" not in defs:
+        defs["Leaf"] = struct([field(1, "default", T("i32"))])      # some invalid classes mention a struct Leaf
+        U.with_defaults({"Leaf": defs["Leaf"]})
+    for ci, (cls, gotype, rawtag) in enumerate(checks_reject.bad_field_classes()):
+        badn, frn = "HBad%d" % ci, "HFresh%d" % ci
+        badf = {"id": 2, "key": "2", "req": "default", "t": {"k": "i32", "ptr": False, "gotype": gotype}, "nocopy": False,
+                "name": list(b"F2"), "rawtag": rawtag, "opaque": True}
+        defs[badn] = struct([field(1, "default", T("i32")), badf])
+        defs[badn]["invalid"] = True
+        defs[frn] = struct([field(1, "default", T("i64")), field(2, "default", T("i32")), field(3, "default", T("string")), field(4, "default", L(T("i16"))),
+                            field(5, "optional", T("double", True)), field(6, "default", M(T("string"), T("i64"))), field(7, "default", SET(T("i8")))])
+        U.with_defaults({frn: defs[frn]})
+        v = U.base_value({"k": "struct", "ptr": False, "s": frn}, defs, 2, ci)
+        steps = [{"op": "reject", "ty": badn, "entry": ["size", "encode", "decode"][ci % 3], "arg": "ptr", "class": cls, "repeat": 1},
+                 {"op": "size", "ty": frn, "v": 0}, {"op": "encode", "ty": frn, "v": 0, "buf": {"mode": "rel", "n": 0, "extra": 0}},
+                 {"op": "decode", "ty": frn, "from": 2, "dest": "fresh", "orig": 0}]
+        sid = "C07-rejfirst-%s" % cls
+        scen.append({"sid": sid, "prop": prop, "vals": [v], "steps": steps, "tags": ["rejected-then-first-use", cls], "dkey": sid})
     # systematic: every truncation of a message, each followed by complete messages of the same type
     # (what a failed decode leaves in the pools must not show in the next result)
     kcopy = ncopies - 1
